@@ -249,7 +249,20 @@ fn decode_op(t: &mut Tape) -> (OpSpec, u32, u32, &'static str) {
                 0 => {
                     // crop box outside the image
                     let (w, h) = (spec.sw as f64, spec.sh as f64);
-                    spec.crop = match t.below(4) {
+                    spec.crop = match t.below(6) {
+                        // a box of exactly the destination's size (the copy fast path) that sticks out of the image
+                        4 => CropSpec::Box {
+                            l: (spec.sw as f64 - (spec.dw as f64 - 1.0).max(0.0)).max(0.0),
+                            t: 0.0,
+                            w: spec.dw as f64 + if spec.dw > spec.sw { 0.0 } else { 0.0 },
+                            h: spec.dh.min(spec.sh) as f64,
+                        },
+                        5 => CropSpec::Box {
+                            l: 0.0,
+                            t: spec.sh as f64,
+                            w: spec.dw as f64,
+                            h: spec.dh as f64,
+                        },
                         0 => CropSpec::Box { l: w, t: 0.0, w: 1.0, h },
                         1 => CropSpec::Box { l: 0.0, t: 0.0, w: w + 0.5, h },
                         2 => CropSpec::Box { l: 0.0, t: h * 0.5, w, h: h * 0.5 + 1e-9 },
@@ -290,7 +303,7 @@ fn decode_op(t: &mut Tape) -> (OpSpec, u32, u32, &'static str) {
             let divide = t.bool();
             let inplace = t.bool();
             let content = Content {
-                class: t.pick(&[1u8, 2, 6, 8]),
+                class: t.pick(&[1u8, 2, 6, 8, 10, 10, 0]),
                 seed: t.u32() as u64,
             };
             let ext = t.pick(&img::exts());
